@@ -49,6 +49,11 @@ impl State {
         }
     }
 
+    // 是否收到过该包（不改变状态）
+    fn is_received(&self) -> bool {
+        !matches!(self, State::Empty)
+    }
+
     fn could_expire(&self, now: Instant) -> bool {
         match self {
             State::Empty => true,
@@ -166,7 +171,7 @@ impl RcvdJournal {
         let delay = VarInt::from_u64(delay).unwrap();
         let mut first_range = 0_u32;
         for (_, s) in pkts.by_ref() {
-            if s.track_packet_in_ack_frame(pn) {
+            if s.is_received() {
                 first_range += 1;
             } else {
                 break;
@@ -205,7 +210,7 @@ impl RcvdJournal {
                 (1, 0, false),
                 |(gap, ack, last_is_acked), (_pktno, state)| {
                     let range_count = ranges.len();
-                    match (last_is_acked, state.track_packet_in_ack_frame(pn)) {
+                    match (last_is_acked, state.is_received()) {
                         // 本range结束了，看看是否放得下本range，开始新的range
                         (true, false) => {
                             // 修正
@@ -220,15 +225,15 @@ impl RcvdJournal {
                             }
                             capacity -= size;
                             ranges.push((gap, ack));
-                            Continue((1, 0, state.track_packet_in_ack_frame(pn)))
+                            Continue((1, 0, state.is_received()))
                         }
                         // 如果当前是ack，增加ack，保持gap不变
                         (false | true, true) => {
-                            Continue((gap, ack + 1, state.track_packet_in_ack_frame(pn)))
+                            Continue((gap, ack + 1, state.is_received()))
                         }
                         // 当前和之前都是gap，增加gap
                         (false, false) => {
-                            Continue((gap + 1, ack, state.track_packet_in_ack_frame(pn)))
+                            Continue((gap + 1, ack, state.is_received()))
                         }
                     }
                 },
@@ -245,13 +250,22 @@ impl RcvdJournal {
                 ranges.push((gap, ack));
             }
         }
+        drop(pkts);
+        let ack_frame = AckFrame::new(largest, delay, first_range, ranges, None);
+        // Only the packets actually covered by the frame are tracked as "ack sent in `pn`":
+        // a range that did not fit must stay unacknowledged until a later frame carries it.
+        for pktno in ack_frame.iter().flatten() {
+            if let Some(state) = self.queue.get_mut(pktno) {
+                state.track_packet_in_ack_frame(pn);
+            }
+        }
         self.packet_include_ack.insert(pn);
         if let Some((pn, _)) = self.earliest_not_ack_time
             && largest >= pn
         {
             self.earliest_not_ack_time = None;
         }
-        Ok(AckFrame::new(largest, delay, first_range, ranges, None))
+        Ok(ack_frame)
     }
 
     fn need_ack(&self) -> Option<(u64, Instant)> {
